@@ -80,6 +80,7 @@ def gate_cases(ctx):
                 r = readers[fam]()
                 r.spacecraft_id = s
                 r._times_as_np_datetime64 = np.array([ts, (ts + te) // 2, te], dtype="datetime64[ms]")
+                r.scans = np.zeros(3, dtype=r.scanline_type)      # three unflagged records, so that any reader attribute can be derived
                 got = bool(r.is_tsm_affected())
                 want = gate_oracle(tabs, fam, s, ts, te)
                 payload = {"fam": fam, "sid": s, "ts": ts, "te": te, "interval": [a, b], "stream": "gate"}
@@ -192,7 +193,7 @@ def pipeline_cases(ctx):
         a, b = [(ms(x), ms(y)) for x, y in tabs[fam][sid]][rng.randrange(len(tabs[fam][sid]))]
         n = 14
         span = (n - 1) * 500
-        where = rng.choice(["inside", "inside", "straddle-start", "straddle-end", "outside"])
+        where = ["inside", "straddle-start", "straddle-end", "outside", "inside"][k % 5]
         start = {"inside": a + rng.randint(0, max(0, b - a - span)), "straddle-start": a - 500 * rng.randint(1, n - 1),
                  "straddle-end": b - 500 * rng.randint(0, n - 2), "outside": a - 86400000}[where]
         tp = timesgen.TimePass(fmt, list(range(1, n + 1)), start)
@@ -219,6 +220,15 @@ def pipeline_cases(ctx):
                 bld.quality[i] = 1 << 31
                 smp[i] = bld.nprng.integers(100, 1000, size=smp[i].shape)
             bld.samples = smp.reshape(n, w * 5).astype(np.uint32)
+        if where.startswith("straddle") and (k // 5) % 2 == 0:
+            # every line OUTSIDE the interval is flagged (blanked): the pass still does not lie entirely inside the interval,
+            # so nothing may be masked on the lines inside
+            t_lines = start + 500 * np.arange(n)
+            outside = (t_lines < a) | (t_lines > b)
+            if 0 < outside.sum() < n:
+                bld.quality[:] = 0
+                bld.quality[outside] = 1 << 31
+                where = where + "/outside-lines-flagged"
         data = bld.tobytes()
         cls = filegen.reader_class(fmt)
         kw = dict(tle_dir=filegen.tle_dir(ctx), tle_name="TLE_%(satname)s.txt", adjust_clock_drift=False)
